@@ -363,6 +363,10 @@ def rule_cond(ctx):
 
 
 def run(ctx):
+    from ..report import SubCtx
+    from . import c05
+    sub_c05 = SubCtx(ctx, 'C11.inherit', 'next() links the routine to its caller and restores it afterwards: the parent link and the time it copies, as decided for C05')
+    c05.rule_inherit(sub_c05)
     # the condition is evaluated when it is asked: a callable test is called on every read (no cached value), the setter
     # only stores; a routine's logical time is its own stored second, its beat that second on its own clock
     cnd2 = ctx.repo.cls('sc3.base.stream:Condition')
